@@ -33,6 +33,7 @@ const (
 	Has      Kind = "has"
 	Count    Kind = "count"
 	Wait     Kind = "wait"
+	SetPH    Kind = "setpanichandler" // install the panic handler at this point (possibly from inside a handler)
 )
 
 // Reg describes a registration.
@@ -579,6 +580,9 @@ func (e *Engine) exec(op *Op, hctx context.Context) {
 		if e.depth == 0 {
 			e.Bus.Wait()
 		}
+	case SetPH:
+		e.Bus.SetPanicHandler(e.panicHandler)
+		e.stamp(TEv{K: "ph.set"})
 	}
 }
 
